@@ -16,7 +16,10 @@ fn mix(mut h: u64, v: u64) -> u64 {
     h ^ (h >> 31)
 }
 
-const N_CALLS: usize = 10;
+const N_CALLS: usize = 13;
+const CELL: u64 = 0x2a80000000000000;
+/// digest of a rejected call (a rejection is the expected outcome of calls 10 and 12)
+const REJECTED: u64 = 0xE44;
 
 /// call number k of the fixed pool; returns a digest of the result bits
 fn call(k: usize) -> u64 {
@@ -32,11 +35,22 @@ fn call(k: usize) -> u64 {
         6 => a5::cell_to_children(0x2a80000000000000, None).map(|v| v.iter().fold(6, |h, x| mix(h, *x))).unwrap_or(0),
         7 => a5::compact(&[0x0200000000000000, 0x0600000000000000, 0x2a80000000000000]).map(|v| v.iter().fold(7, |h, x| mix(h, *x))).unwrap_or(0),
         8 => a5::lonlat_to_cell(LonLat::new(12.5, 41.9), 7).map(|id| mix(8, id)).unwrap_or(0),
-        _ => {
+        // error paths: an expansion that is rejected half way through its list (a word with a face field beyond the last face
+        // behind a valid cell), the same expansion without it, and a hierarchy call with the resolution on the wrong side;
+        // nothing a rejected call did may be visible to the calls after it, in this or any other thread
+        10 => {
+            let r = a5::get_resolution(CELL);
+            let not_a_cell = (CELL & ((1u64 << 58) - 1)) | (61u64 << 58);
+            a5::uncompact(&[CELL, not_a_cell], r + 1).map(|v| v.iter().fold(10, |h, x| mix(h, *x))).unwrap_or(REJECTED)
+        }
+        11 => a5::uncompact(&[CELL], a5::get_resolution(CELL) + 1).map(|v| v.iter().fold(11, |h, x| mix(h, *x))).unwrap_or(0),
+        12 => a5::cell_to_children(CELL, Some(a5::get_resolution(CELL) - 1)).map(|v| v.iter().fold(12, |h, x| mix(h, *x))).unwrap_or(REJECTED),
+        9 => {
             let (f, s) = DodecahedronProjection::get_thread_local().verif_filled_slots();
             let _ = (f, s);
-            a5::cell_to_parent(0x2a80000000000000, None).map(|p| mix(9, p)).unwrap_or(0)
+            a5::cell_to_parent(CELL, None).map(|p| mix(9, p)).unwrap_or(0)
         }
+        _ => unreachable!(),
     }
 }
 
@@ -73,7 +87,8 @@ fn main() {
         }
     }
     // the nesting pattern, and every call once more on the main thread (warm history) compared with the threads' results
-    for k in [8usize, 0, 8, 1, 3, 4, 5, 2, 6, 7, 9] {
+    // (the revisit pattern 6, 10, 6 and 11, 10, 11 puts a rejected call between two identical accepted ones)
+    for k in [8usize, 0, 8, 1, 3, 4, 5, 2, 6, 10, 6, 7, 9, 11, 10, 11, 12, 6] {
         events += 1;
         let d = call(k);
         match seen[k] {
